@@ -5,13 +5,88 @@ import os
 V = os.path.dirname(os.path.dirname(os.path.abspath(__file__)))
 TECH = 'deterministic simulation (simos: seeded scheduler + simulated OS) with fault injection; '
 
+E = TECH + 'seeded search over scenarios x schedules x faults; '
+F = TECH + 'census run + complete enumeration of a finite fault space (landing / kill / cut points) + seeded schedules; '
 CHECKS = {
     'C01': ('fault_enumeration', '5 C01',
             'Enumerates every asynchronous-exception delivery point (terminate) and every line boundary (SIGKILL/SIGTERM) of the '
-            'child run loop for all six worker classes x 15/5 target flavours, plus kills while blocked writing an oversized '
-            'result, plus seeded random schedules; oracle: shape / definiteness / stability / never-raises of the four accessors '
-            'after death, checked against an omniscient ground-truth log.',
-            TECH + 'census + directed landing-point enumeration + seeded random schedules; ground-truth oracle'),
+            'child run loop for all six worker classes x 15/5 target flavours, kills while blocked writing an oversized result, '
+            'plus seeded random schedules; oracle: shape / definiteness / stability / never-raises of the four accessors after '
+            'death, checked against an omniscient ground-truth log.', F + 'ground-truth oracle'),
+    'C02': ('exploration', '5 C02',
+            'Differential: thread, process and remote worker created in the same simulated run for generated targets / values '
+            '(0 B - 4 MiB straddling the drawn pipe and TCP capacities) and compared with the direct call and with each other; a '
+            'wait() that never returns is a verdict (quiescence / simulated deadline), not a timeout.', E + 'differential oracle vs direct call'),
+    'C03': ('fault_enumeration', '5 C03',
+            'One graceful terminate released exactly when the victim thread is at each enumerated delivery point (function entry, '
+            'after a C call, backward jump, return of a blocking call) from constructor-returned to exit, six classes x cooperative '
+            'targets; oracle: terminated-or-own outcome, finally marker written by the target thread, terminate() True in time.',
+            F + 'landing-site ground truth'),
+    'C04': ('exploration', '5 C04',
+            'Histories of wait/terminate/is_alive/close on cooperative, exception-swallowing, sleeping, interpreter-lock-holding, '
+            'SIGSTOPped, finished and never-run workers under both clock modes; oracle: simulated-time bound, truthfulness against '
+            'the simulated process table, idempotence on dead workers, forced kill.', E + 'simulated clock + process table oracle'),
+    'C05': ('exploration', '5 C05',
+            'Model-based: histories of enqueue / next_result / results_iter / call / close / wait on the three persistent kinds '
+            'with list or tuple defaults and argument-mutating targets, every value compared with a list model on pristine copies.',
+            E + 'reference (list) model'),
+    'C06': ('fault_enumeration', '5 C06',
+            'terminate / SIGKILL / SIGTERM / poison item at every enumerated point of the child loop and child kill at every line of '
+            'the parent-side forwarding thread, three consumers (next_result loop, results_iter, raw wait+recv multiplexer); oracle: '
+            'delivered values are a prefix of the expected sequence and the stream always ends.', F + 'prefix + end-of-stream oracle'),
+    'C07': ('exploration', '5 C07',
+            'Pool.run on 1-3 real persistent workers of mixed kinds with poison inputs, worker-specific failures, SIGKILL at seeded '
+            'and directed instants (inside the pool bookkeeping functions), refusing enqueue_fn, extra pending 0-2; oracle: multiset '
+            'equality, only PoolError, termination (hang and busy-loop detection).', E + 'multiset oracle + spin/hang detection'),
+    'C08': ('exploration', '5 C08',
+            'Same space x retry on/off x return_results on/off x surviving worker; oracle: PoolError implies every worker dead in '
+            'the process table, partial results genuine and unique, missing inputs explained by probe-recorded hand-outs.',
+            E + 'process-table + ground-truth oracle'),
+    'C09': ('exploration', '5 C09',
+            'Pool life-cycle histories (add / attach / run / restart_workers / kill / stuck worker / failing registration or '
+            'construction / exception in with-body / close / terminate) x close_timeout x force; oracle: no child process survives '
+            'the pool, per-run result multisets, nothing leaked by failed add_worker.', E + 'process-table oracle over histories'),
+    'C10': ('fault_enumeration', '5 C10',
+            'send_msg/recv_msg over a scripted transport: every segmentation of short streams, every single / near-boundary double '
+            'cut, 1-byte reads, every truncation offset x {FIN, RST}; plus sender and receiver threads on simulated TCP with seeded '
+            'segmentation, latency, small buffers and peer close at an offset.', F + 'sequence-equality / prompt-error oracle'),
+    'C11': ('fault_enumeration', '5 C11',
+            'Real server on simos; the byte stream of a well-behaved client (recorded in the same run) replayed by a raw-socket '
+            'client and cut at enumerated offsets with FIN/RST, plus faulty control-handshake steps, with a concurrent healthy '
+            'worker and sequences of faulty clients; oracle: server alive and a fresh round trip succeeds after every fault.',
+            F + 'liveness oracle (fresh round trip within a simulated deadline)'),
+    'C12': ('exploration', '5 C12',
+            '0-4 remote children in mixed states, stop by terminate() or SIGTERM at seeded / directed instants (while a worker is '
+            'being started); oracle: all descendants of the server gone from the process table, every parent-side worker dead with '
+            'has_error True without blocking, finished workers keep their outcome.', E + 'process-table oracle'),
+    'C15': ('exploration', '5 C15',
+            'Histories of remote_pickle.loads with patches on generated object graphs, some calls failing part-way (truncated stream, '
+            'raising __setstate__), with concurrent loads on other simulated threads interleaved at line level; differential oracle '
+            'against the un-patched load, a reference model of the patch rule, and the same call on a brand-new thread.',
+            E + 'differential + reference model'),
+    'C16': ('fault_enumeration', '5 C16',
+            'Probe subclasses assign user_state before/after the target; endings return / exception / terminate at enumerated '
+            'delivery points; chains of restarts / re-creations; oracle: parent sees the initial value until the child reports, the '
+            'last child assignment afterwards, parent assignment rejected, next incarnation starts from the synchronised value.',
+            F + 'state model vs ground truth'),
+    'C17': ('exploration', '5 C17',
+            'restart() of persistent workers in states never-used / unread results / queued inputs / closed / died / killed / stuck, '
+            '1-3 consecutive restarts, with and without caller-supplied pipe; oracle: live equivalent worker, new identity, old child '
+            'gone from the process table, fresh stream of fresh unique inputs only, RuntimeError only when unstoppable.',
+            E + 'process-table + fresh-stream oracle'),
+    'C18': ('exploration', '5 C18',
+            'Histories over context ids {1,2,3} (create, duplicate, delete, delete unknown, workers in known / unknown contexts, '
+            'enqueue, wait) on the real server and real context helper processes; dictionary model of the context table plus a fresh '
+            'round trip after every operation.', E + 'reference (dictionary) model'),
+    'C19': ('exploration', '5 C19',
+            'Histories of create / wait / terminate / restart / active_children() from 1-3 simulated caller threads with an optional '
+            'autoclose block; interval oracle against the simulated process table, registry must not retain dead workers.',
+            E + 'interval oracle'),
+    'C20': ('fault_enumeration', '5 C20',
+            'Scripted server peer cutting both handshake messages at enumerated offsets with FIN/RST, refused control connection, '
+            'unknown context, spawn failure, server / child killed at every line reached during the constructor; oracle: constructor '
+            'returns or raises within a simulated deadline, id names a started child, failed construction leaves no process.',
+            F + 'hang = simulated deadline / quiescence'),
 }
 NA = {
     'C13': 'pure function of the input object graph / class hierarchy: no schedule, clock, fault, I/O or second party for a '
